@@ -102,6 +102,11 @@ class Sanitizer(Base):
         if left:
             self.viol("kernel_partial_write", "kernel_partial_write", {"nan_left": left})
 
+    def on_induced_buffer(self, ctx, rows_left, rows):
+        self.count("induced_buffer_checks")
+        if rows_left:
+            self.viol("kernel_partial_write", "kernel_partial_write", {"rows_never_written": rows_left, "rows": rows, "where": "solver's output buffer"})
+
 
 # ----------------------------------------------------------------------------
 class ChargeMonitor(Base):
